@@ -120,3 +120,31 @@ impl_bit_value!(SM16, i16, sm);
 impl_bit_value!(SM32, i32, sm);
 impl_bit_value!(SM64, i64, sm);
 impl_bit_value!(SM128, i128, sm);
+
+/// Subtraction of a field's bias that cannot overflow: integer types report `None`
+/// (the caller turns it into `OutOfRange`), floating-point types just subtract.
+pub trait BiasSub: Sized {
+    fn bias_sub(self, bias: Self) -> Option<Self>;
+}
+macro_rules! impl_bias_sub_int {
+    ($($t:ty),*) => {$(
+        impl BiasSub for $t {
+            #[inline]
+            fn bias_sub(self, bias: Self) -> Option<Self> {
+                self.checked_sub(bias)
+            }
+        }
+    )*};
+}
+macro_rules! impl_bias_sub_float {
+    ($($t:ty),*) => {$(
+        impl BiasSub for $t {
+            #[inline]
+            fn bias_sub(self, bias: Self) -> Option<Self> {
+                Some(self - bias)
+            }
+        }
+    )*};
+}
+impl_bias_sub_int!(u8, u16, u32, u64, usize, i8, i16, i32, i64);
+impl_bias_sub_float!(f32, f64);
